@@ -2,7 +2,7 @@
 import importlib
 
 IDS = [f"C{n:02d}" for n in range(1, 20)]
-BEYOND = ["X01", "X02", "X03", "X04", "X05"]          # conformance of specification parts that no listed property claims (./check X01 ...)
+BEYOND = ["X01", "X02", "X03", "X04", "X05", "X06"]          # conformance of specification parts that no listed property claims (./check X01 ...)
 
 
 def load(pid: str):
